@@ -267,11 +267,11 @@ Definition jres_eqb (a b : jres) : bool :=
    document in document order, nothing else; the writing face is the default one afterwards *)
 Fixpoint doc_kinds (t : jtext) {struct t} : list kind :=
   match t with
-  | JStr chars => map KChar chars
-  | JArr items => flat_map doc_kinds items
-  | JObj _ _ (JBGlyph k _) => [k]       (* the "text" of a glyph object is not part of the text *)
-  | JObj _ _ (JBText t') => doc_kinds t'
-  | JObj _ _ JBNone => []
+  | TxStr chars => map KChar chars
+  | TxArr items => flat_map doc_kinds items
+  | TxObj _ _ (JBGlyph k _) => [k]       (* the "text" of a glyph object is not part of the text *)
+  | TxObj _ _ (JBText t') => doc_kinds t'
+  | TxObj _ _ JBNone => []
   end.
 
 Definition holds_j (doc : jtext) (impl : jres) : bool :=
